@@ -81,3 +81,13 @@ pub struct Scalar(pub u64);
 pub fn orders(a: Scalar, b: Scalar) -> Scalar {
     core::cmp::max(a, b)
 }
+
+// E7 textual rendering of a backend-typed value used as data (name-based control: the type called Scalar)
+impl core::fmt::Display for Scalar {
+    fn fmt(&self, f: &mut core::fmt::Formatter<'_>) -> core::fmt::Result {
+        write!(f, "{}", self.0)
+    }
+}
+pub fn renders(a: Scalar) -> (String, String) {
+    (a.to_string(), format!("{}", a))
+}
